@@ -50,6 +50,17 @@ VARIANTS = {
         lambda n: expr('not self._metahint_wrapper <= branch._metahint_wrapper'), scope='_is_subhint_branch'),
         'the subhint test spelled as a comparison of wrappers'),
     # ---- neutral -----------------------------------------------------------------------------------------
+    # ---- R10 union subhint by interpretation -------------------------------------------------------------
+    'union-subhint-no-descent-into-unionlike-member': tseeded(UNI, _ret(
+        'UnionTypeHint._is_subhint', 'return all(this_branch.is_subhint(other) for this_branch in self._branches)'), 'C19.R10',
+        'is_subhint(Optional[T], Optional[T]) is False for a bounded T (seeded C19-11)'),
+    'union-subhint-any-member-suffices': tseeded(UNI, _ret(
+        'UnionTypeHint._is_subhint', 'return any((any(this_branch.is_subhint(that_branch) for that_branch in other._branches) '
+        'if isinstance(other, UnionTypeHint) else this_branch.is_subhint(other)) for this_branch in self._branches)'), 'C19.R10',
+        'int | str becomes a subhint of int: unsound'),
+    'n-union-subhint-manual-loops': tneutral(UNI, _ret(
+        'UnionTypeHint._is_subhint', 'return all(any(this_branch.is_subhint(that_branch) for that_branch in '
+        '(other._branches if isinstance(other, UnionTypeHint) else (other,))) for this_branch in self._branches)')),
     'n-roundtrip-doorsuper': roundtrip(SUP),
     'n-roundtrip-doormeta': roundtrip(META),
     'n-iter-return-iter': tneutral(SUP, lambda t: replace_where(
